@@ -873,7 +873,21 @@ impl std::fmt::Display for Meta {
     fn fmt(&self, f: &mut std::fmt::Formatter<'_>) -> std::fmt::Result {
         match self {
             | Self::Ident(name) => write!(f, "{name}"),
-            | Self::String(value) => write!(f, "{value:?}"),
+            | Self::String(value) => {
+                // only the escapes the surface lexer reads back
+                f.write_str("\"")?;
+                for character in value.chars() {
+                    match character {
+                        | '\\' => f.write_str("\\\\")?,
+                        | '"' => f.write_str("\\\"")?,
+                        | '\n' => f.write_str("\\n")?,
+                        | '\r' => f.write_str("\\r")?,
+                        | '\t' => f.write_str("\\t")?,
+                        | _ => write!(f, "{character}")?,
+                    }
+                }
+                f.write_str("\"")
+            }
             | Self::Integer(value) => write!(f, "{value}"),
             | Self::Apply { callee, args } => write!(
                 f,
